@@ -38,6 +38,7 @@ RULE = (
     "(model, hashed non-parameter module state) pairs reached by histories"
 )
 ASSUMPTIONS = [
+    "ConvNeXt / Swin filters_rate given as the int 2 and (transposed-conv upsampling) as the float 2.0 the schema declares",
     "UNet max_stride in {2, 4, 8, 16, 32} (2 = a single down block)",
     "validity predicate as in DESIGN §3 C14 (docs/config.md): power-of-two strides, backbone output_stride = min(head strides), "
     "head strides < max_stride, stem in {None,2,4}, convs_per_block >= 2, ConvNeXt/Swin max_stride = 8*stem_patch_stride, filters_rate 2 for ConvNeXt/Swin "
@@ -436,6 +437,8 @@ def enum_models(tier, wseed, counters):
                             heads = head_cfg(mt, s1, s2)
                             bb = mk(stem, min(head_strides(heads)), upi, None, arch, cpb)
                             add(family, bb, mt, heads, two_inputs if tier == "quick" else full_inputs)
+                            if not upi:  # filters_rate as the float the schema declares (OmegaConf.structured gives 2.0)
+                                add(family, dict(bb, filters_rate=2.0), mt, heads, (two_inputs if tier == "quick" else full_inputs)[:1])
     # ---- presets
     for family, mk in (("convnext", convnext_cfg), ("swint", swint_cfg)):
         for stem in (2, 4):
